@@ -44,6 +44,11 @@ def family_F():
                             Opt('int', 'l', 'L', [b'1'])], 'multi inside titled multi'))
     F.append(Schema('F19', [Opt('sec', 'root', 'MT', sub=[Opt('int', 'x', '', 1)]), Opt('int', 'i', '', 5)],
                     "a titled multi section that happens to be named 'root' (the name of the top-level context)"))
+    F.append(Schema('F20', [Opt('sec', 'a', '', sub=[Opt('sec', 'mu', 'MTU', sub=[Opt('int', 'x', '', 1)]), Opt('int', 'y', '', 2)]),
+                            Opt('sec', 'mu', 'MT', sub=[Opt('int', 'x', '', 1)])],
+                    'unique titles at depth 2 next to a same-named section at depth 1 that allows duplicates'))
+    F.append(Schema('F21', [Opt('sec', 'm', 'M', sub=[Opt('int', 'd', 'D', 5), Opt('int', 'dl', 'LDX', [b'1']), Opt('int', 'l', 'L', [b'1', b'2'])]),
+                            Opt('int', 'dd', 'DX', 5)], 'deprecated / drop options and list defaults inside a multi section'))
     return F
 
 
@@ -72,6 +77,12 @@ def family_one_option():
     return out
 
 
+def _all_opts(opts):
+    for o in opts:
+        yield o
+        yield from _all_opts(o.sub)
+
+
 def alphabet_for(schema, extra_names=True):
     """token alphabet of C01-E1 for a schema: declared names, an undeclared one, a case variant,
     value lexemes, two titles, punctuation"""
@@ -87,5 +98,7 @@ def alphabet_for(schema, extra_names=True):
     for v in ('7', 'x', 'true', '1.5', 't1'):
         if v not in words:
             words.append(v)
+    if extra_names and any(o.has('T') for o in _all_opts(schema.opts)):
+        words.append('T1')      # the same title in another letter case (matters under CFGF_NOCASE)
     words += ['=', '+=', '{', '}', '(', ')', ',']
     return words
